@@ -12,8 +12,8 @@ Open Scope N_scope.
 Inductive sop :=
 | SGetRow                                   (* GetDeviceByDevAddr / GetDeviceByEUI: this device's row and nonces *)
 | SUpdateState (dev : device)
-| SAdvanceUp (accepted newfup : N) (kw : bool)   (* AdvanceFCntUp: compare and store in one statement *)
-| SNextDn                                       (* NextFCntDn: reserve the next downlink counter *)
+| SAdvanceUp (key : list N) (accepted newfup : N) (kw : bool)   (* AdvanceFCntUp: compare and store in one statement, within the session *)
+| SNextDn (key : list N)                                        (* NextFCntDn: reserve the next downlink counter of the session *)
 | SCreateUpstream (m : umsg)
 | SGetApp (eui : N)
 | SSetAckFlag (b : bool)
@@ -33,7 +33,7 @@ Inductive sres := XErr (e : option serr) | XRow (r : option device) | XMsg (m : 
 (* the name the gate hook reports for the operation *)
 Definition sop_name (o : sop) : string :=
   match o with
-  | SGetRow => "GetDevice" | SUpdateState _ => "UpdateDeviceState" | SAdvanceUp _ _ _ => "AdvanceFCntUp" | SNextDn => "NextFCntDn" | SCreateUpstream _ => "CreateUpstreamMessage"
+  | SGetRow => "GetDevice" | SUpdateState _ => "UpdateDeviceState" | SAdvanceUp _ _ _ _ => "AdvanceFCntUp" | SNextDn _ => "NextFCntDn" | SCreateUpstream _ => "CreateUpstreamMessage"
   | SGetApp _ => "GetApplicationByEUI" | SSetAckFlag _ => "SetMessageAckFlag" | SUpdateAckTime _ _ => "UpdateMessageAckTime"
   | SResetAcks => "ResetActiveAcks" | SGetNextUnsent => "GetNextUnsentMessage" | SSetPayload _ _ _ => "SetPayload"
   | SSetSentTime _ _ _ => "SetMessageSentTime" | SGetPhy _ => "GetPHYPayloadForDevice" | SEmit _ _ => "handoff:encOutput"
@@ -45,8 +45,8 @@ Definition exec (apps : list N) (st : dstate) (o : sop) : dstate * sres * list o
   match o with
   | SGetRow => (st, XRow (match ds_row st with Some r => Some (load st r) | None => None end), [])
   | SUpdateState dev => let '(st', e) := l_update_device_state st dev in (st', XErr e, [])
-  | SAdvanceUp a nf kw => let '(st', e) := l_advance_fup st a nf kw in (st', XErr e, [])
-  | SNextDn => let '(st', c) := l_next_fdn st in (st', XCnt c, [])
+  | SAdvanceUp key a nf kw => let '(st', e) := l_advance_fup st key a nf kw in (st', XErr e, [])
+  | SNextDn key => let '(st', c) := l_next_fdn st key in (st', XCnt c, [])
   | SCreateUpstream m => let '(st', e) := l_create_upstream st m in (st', XErr e, [])
   | SGetApp eui => (st, XApp (has_app apps eui), [])
   | SSetAckFlag b => (l_set_ack_flag st b, XErr None, [])
@@ -68,7 +68,7 @@ Definition can_fail (o : sop) : bool :=
 Definition failed (o : sop) : sres :=
   match o with
   | SGetRow => XRow None | SGetApp _ => XApp false | SGetNextUnsent => XMsg None | SGetPhy _ => XPhy GetErr
-  | SNextDn => XCnt None
+  | SNextDn _ => XCnt None
   | _ => XErr (Some SInjected)
   end.
 
@@ -81,7 +81,7 @@ Section Steps.
   Definition enc_data_prog (dev : device) (p : phyout) (rx : rxpacket) (created now : N) (fin : list out) : prog :=
     match encode (downlink_frame dev p 0) with
     | Ok _ =>
-    Do SNextDn (fun r =>
+    Do (SNextDn (d_nwkskey dev)) (fun r =>
     match r with
     | XCnt (Some c) =>
       match encode_message E (d_nwkskey dev) (d_appskey dev) (downlink_frame dev p c) with
@@ -155,7 +155,7 @@ Section Steps.
           end) in
         if d_fup dev <=? fcnt f then
           let dev1 := set_counters dev ((fcnt f + 1) mod 65536) (d_fdn dev) kw in
-          Do (SAdvanceUp (fcnt f) ((fcnt f + 1) mod 65536) kw) (fun r =>
+          Do (SAdvanceUp (d_nwkskey dev) (fcnt f) ((fcnt f + 1) mod 65536) kw) (fun r =>
             match r with
             | XErr None => body dev1
             | XErr (Some SNotFound) => if d_relaxed dev then body dev1 else Halt []   (* another handler was first *)
@@ -195,7 +195,7 @@ Section Steps.
                 | XErr None =>
                   let ja_ := {| ja_appnonce := appnonce; ja_netid := N.land (cfg_netid cfg) 4294967295;
                                 ja_devaddr := devaddr_of_u32 addr; ja_rx1droffset := 0; ja_rx2dr := 5; ja_rxdelay := 1 |} in
-                  Do (SSetJoinAccept ja_) (fun _ => send_prog dev1 rx 0 0 [])
+                  Do (SSetJoinAccept ja_) (fun _ => send_prog dev rx 0 0 [])
                 | _ => Halt []
                 end) in
               if cfg_disable_nonce_check cfg then rest
